@@ -105,6 +105,13 @@ class CallFunction(Node):
                 return self.name + '('+params.generate_lingo(indentation)+')'
             else:    
                 return self.name + ' ' + params.generate_lingo(indentation)
+        elif (self.use_parenthesis and not self.with_result
+              and self.parameters is not None
+              and self.parameters.name.startswith('<')):
+            # A call without arguments to a handler of another script inside
+            # an expression: without the parentheses Lingo reads the name as
+            # a variable (the name of a handler of this script is a call)
+            return self.name + '()'
         else:
             return self.name
 
